@@ -10,8 +10,10 @@ and of the commit / rollback decision of `dns.zone.Transaction._end_transaction`
   the model — Python-level immutability is checked by enumeration in the harness, not here.
 * `versions` is the deque `Zone._versions`, oldest first.  `history` is **ghost**: every version ever committed.
 * `readers` is `Zone._readers`: (handle, the version object the transaction holds).
-* the pruning policy is one of: the default (always prune), `set_max_versions(n)`, `set_max_versions(None)`,
-  or an arbitrary predicate on the version, given by the list of ids on which it answers true.
+* the pruning policy is an **arbitrary** function of (number of versions retained at the moment it is asked, the
+  version it is asked about): `Policy = Nat → Ver → Bool`.  The default (always prune), `set_max_versions(n)`,
+  `set_max_versions(None)` and "true on these ids" are instances; `Op.setPred f` installs any `f` whatsoever (not
+  necessarily monotone in the id or in the count).  Assumption: the callable is pure and looks at nothing else.
 -/
 namespace Model.Versioned
 
@@ -21,12 +23,18 @@ structure Ver where
   serial : Option Nat
   deriving DecidableEq, Repr
 
-inductive Policy where
-  | default
-  | maxN (n : Nat)
-  | unlimited
-  | allowed (ids : List Nat)
-  deriving DecidableEq, Repr
+abbrev Policy := Nat → Ver → Bool
+
+/-- `_default_pruning_policy` -/
+def Policy.default : Policy := fun _ _ => true
+/-- `set_max_versions(n)`: `len(zone._versions) > max_versions` -/
+def Policy.maxN (n : Nat) : Policy := fun len _ => decide (len > n)
+/-- `set_max_versions(None)` -/
+def Policy.unlimited : Policy := fun _ _ => false
+/-- a predicate on the version alone, true exactly on these ids -/
+def Policy.allowed (ids : List Nat) : Policy := fun _ v => ids.contains v.id
+/-- a family of predicates that depend on both arguments and are monotone in neither (used by the harness) -/
+def Policy.modp (a b : Nat) : Policy := fun len v => (a * len + v.id) % (b + 2) != 0
 
 structure State where
   versions : List Ver
@@ -34,7 +42,6 @@ structure State where
   policy : Policy
   writer : Option Nat
   history : List Ver       -- ghost
-  deriving Repr
 
 inductive Err where
   | keyError | valueError | alreadyEnded | noWriter
@@ -50,8 +57,9 @@ inductive Op where
   | rollback
   | setMax (n : Option Int)
   | setPolicy (p : Option (List Nat))
+  | setModp (a b : Nat)                     -- set_pruning_policy(lambda zone, v: (a*len(zone._versions)+v.id) % (b+2) != 0)
+  | setPred (f : Nat → Ver → Bool)          -- set_pruning_policy(any pure callable)
   | observe (h : Nat)
-  deriving DecidableEq, Repr
 
 inductive Out where
   | ok
@@ -65,12 +73,7 @@ def init : State :=
   { versions := [⟨1, 0, none⟩], readers := [], policy := .default, writer := none, history := [⟨1, 0, none⟩] }
 
 /-- the policy callable applied to `(zone, version)`; `len` is `len(zone._versions)` at the time of the call -/
-def prunable (p : Policy) (len : Nat) (v : Ver) : Bool :=
-  match p with
-  | .default => true
-  | .maxN n => decide (len > n)
-  | .unlimited => false
-  | .allowed ids => ids.contains v.id
+def prunable (p : Policy) (len : Nat) (v : Ver) : Bool := p len v
 
 def newestId (vs : List Ver) : Nat :=
   match vs.getLast? with
@@ -144,6 +147,8 @@ def step (s : State) : Op → State × Out
     if n < 1 then (s, .err .valueError) else (prune { s with policy := .maxN n.toNat }, .ok)
   | .setPolicy none => (prune { s with policy := .default }, .ok)
   | .setPolicy (some ids) => (prune { s with policy := .allowed ids }, .ok)
+  | .setModp a b => (prune { s with policy := .modp a b }, .ok)
+  | .setPred f => (prune { s with policy := f }, .ok)
   | .observe h =>
     match findReader s.readers h with
     | some v => (s, .pinned v.id v.content)
